@@ -25,7 +25,10 @@ import math
 import re
 import warnings
 
+import os
+
 import core
+import translate_np
 from core import CorrResult, GenError, Prop
 
 REL = 1e-9      # closed-form float arithmetic
@@ -890,16 +893,102 @@ def nontrivial(case):
     return True
 
 
+# ------------------------------------------------------------------------------------------------
+# the source itself: what harness/translate_np.py translates for this property (python ast -> Gallina, fail closed)
+
+SRC_MODULES = {
+    "classy_blocks.util.functions": "util/functions.py",
+    "classy_blocks.optimize.clamps.clamp": "optimize/clamps/clamp.py",
+    "classy_blocks.optimize.clamps.curve": "optimize/clamps/curve.py",
+    "classy_blocks.optimize.clamps.surface": "optimize/clamps/surface.py",
+    "classy_blocks.optimize.links": "optimize/links.py",
+}
+_F, _CB, _CC, _CS, _LK = list(SRC_MODULES)
+# values the translation does not look into: inputs of the translated functions
+SRC_OPAQUE = {
+    "numpy.random.random": "vec",  # PlaneClamp's auxiliary direction np.random.random(3)
+    # f.rotate (scipy.linalg.expm inside): an uninterpreted total function of (point, angle, axis, origin)
+    "classy_blocks.util.functions.rotate": ("fun", ["vec", "real", "vec", "vec"], "vec"),
+}
+_RL = {"leader": "vec", "origin": "vec", "axis": "vec", "orig_leader_radius": "vec", "orig_follower_pos": "vec"}
+_SL = {"leader": "vec", "normal": "vec", "origin": "vec"}
+# (kind, module, class | None, function, ..., Gallina name); callees before callers
+SRC_ENTRIES = [
+    ("fun", _F, None, "norm", {"matrix": "vec"}, "src_norm"),
+    ("fun", _F, None, "unit_vector", {"vect": "vec"}, "src_unit_vector"),
+    ("fun", _F, None, "angle_between", {"vect_1": "vec", "vect_2": "vec"}, "src_angle_between"),
+    ("fun", _F, None, "point_to_line_distance", {"origin": "vec", "direction": "vec", "point": "vec"}, "src_point_to_line_distance"),
+    ("fun", _F, None, "mirror_matrix", {"normal": "vec"}, "src_mirror_matrix"),
+    ("fun", _F, None, "mirror", {"point": "vec", "normal": "vec", "origin": "vec"}, "src_mirror"),
+    # the position functions handed to ClampBase.__init__ as `function` (closures of the constructors)
+    ("closure", _CC, "LineClamp", "__init__", "function",
+     {"position": "vec", "point_1": "vec", "point_2": "vec", "bounds": None}, {"t": ["real"]}, "src_LineClamp_function"),
+    ("closure", _CS, "PlaneClamp", "__init__", "position_function",
+     {"position": "vec", "point": "vec", "normal": "vec"}, {"params": ["real", "real"]}, "src_PlaneClamp_function"),
+    ("closure", _CC, "RadialClamp", "__init__", "<lambda>",
+     {"position": "vec", "center": "vec", "normal": "vec", "bounds": None}, {"params": ["real"]}, "src_RadialClamp_function"),
+    # the links: transform() as a function of the attributes of the link
+    ("meth", _LK, "TranslationLink", "transform", {}, {"leader": "vec", "vector": "vec"}, "src_TranslationLink_transform"),
+    ("meth", _LK, "SymmetryLink", "_get_follower", {}, _SL, "src_SymmetryLink_get_follower"),
+    ("meth", _LK, "SymmetryLink", "transform", {}, _SL, "src_SymmetryLink_transform"),
+    ("meth", _LK, "RotationLink", "_get_height", {"point": "vec"}, _RL, "src_RotationLink_get_height"),
+    ("meth", _LK, "RotationLink", "_get_radius", {"point": "vec"}, _RL, "src_RotationLink_get_radius"),
+    ("meth", _LK, "RotationLink", "transform", {}, _RL, "src_RotationLink_transform"),
+]
+
+
+def translate_source():
+    """-> (text of Gen/C17/Source.v, the translator)"""
+    root = os.path.join(core.REPO, "src", "classy_blocks")
+    tr = translate_np.Translator({m: os.path.join(root, rel) for m, rel in SRC_MODULES.items()}, opaque=SRC_OPAQUE)
+    what = []
+    for e in SRC_ENTRIES:
+        kind, m, cls, f = e[:4]
+        coq = e[-1]
+        if kind == "fun":
+            got = tr.entry(m, f, e[4], coq=coq)
+            what.append("%s.%s" % (m.split(".")[-1], f))
+        elif kind == "meth":
+            got = tr.entry_method(m, cls, f, e[4], attrs=e[5], coq=coq)
+            what.append("%s.%s" % (cls, f))
+        else:
+            got = tr.entry_closure(m, cls, f, e[4], e[5], e[6], passed_as="function", coq=coq)
+            what.append("%s.%s.%s" % (cls, f, e[4]))
+        if got != coq:
+            raise GenError("%s.%s was translated as %s, not as the entry %s" % (cls or m, f, got, coq))
+    text = tr.source_text("C17: " + ", ".join(what) + " of the working tree of /repo.")
+    return text, tr
+
+
 class C17(Prop):
     pid = "C17"
     title = "Clamps stay on their manifold and links keep their relation"
-    prebuilt = ["Base/Vec3.v", "Model/C17_ClampLink.v", "Proofs/C17_ClampLink.v", "Proofs/C17_Staged.v"]
-    gen_dependent_files = ["Gen/C17/Flags.v"]
+    prebuilt = ["Base/Vec3.v", "Proofs/SourceEqTac.v", "Model/C17_ClampLink.v", "Proofs/C17_ClampLink.v", "Proofs/C17_Staged.v"]
+    gen_dependent_files = ["Gen/C17/Flags.v", "Gen/C17/Source.v", "Proofs/C17_SourceEq.v"]
     property_files = ["Properties/C17.v"]
     trusted = [
-        "hand-written model Model/C17_ClampLink.v of the clamp position functions, ClampBase.update_params/get_params and the "
-        "three links (functions.unit_vector / rotate / mirror / angle_between / point_to_line_distance); tied to the code by "
-        "sampled, kernel-decided numeric agreement (interval, 80 bits, staged by Proofs/C17_Staged.v), not for all inputs",
+        "the numpy-vector AST translator harness/translate_np.py (functions.py: norm, unit_vector, angle_between, "
+        "point_to_line_distance, mirror_matrix, mirror; clamps/curve.py, surface.py: the position functions of LineClamp, "
+        "PlaneClamp, RadialClamp = the closures / the lambda their constructors hand to ClampBase.__init__ as `function`, each "
+        "translated as the statements of the constructor before it followed by its body; links.py: TranslationLink.transform, "
+        "SymmetryLink._get_follower / transform, RotationLink._get_height / _get_radius / transform as functions of the link's "
+        "attributes -> Gen/C17/Source.v; Proofs/C17_SourceEq.v proves translated source = Model/C17_ClampLink.v for all arguments "
+        "on every run, theorem C17_source_is_model). Its fragment: " + translate_np.FRAGMENT + ".  Its reading of python / numpy "
+        "is what is trusted: floats as reals; unit_vector of the zero vector and a division by a zero radius (numpy: nan / inf "
+        "and a RuntimeWarning) as 'no value' (None), the lemmas carry p1 <> p2, cross(r, n) <> 0, n <> 0, radius <> 0, leader "
+        "off the axis; np.random.random(3) is an INPUT (the model's r); functions.rotate (scipy.linalg.expm, outside the fragment) "
+        "is an uninterpreted total FUNCTION input of the values of its four arguments, instantiated with the model's rotate; a "
+        "closure is read with the values its free variables have when it is defined (checked: they are not re-bound afterwards, "
+        "and the closure is what super().__init__ receives as `function`); np.array / np.copy are the identity on values "
+        "(aliasing is not modelled: whether functions.mirror alters its argument stays with Gen/C17/Flags.v); run-time tie: the "
+        "functions / methods the library calls are the parsed ones (file, first line), the base classes are the ones walked",
+        "hand-written model Model/C17_ClampLink.v: for the position functions of LineClamp / PlaneClamp / RadialClamp (up to "
+        "rotate), the three link transforms (RotationLink up to rotate), unit_vector, angle_between, point_to_line_distance, "
+        "mirror no longer trusted (proved equal to the translated source); that functions.rotate is Rodrigues' rotation "
+        "(scipy.linalg.expm), the constructors of the links (super().__init__, self.vector, the ValueError of RotationLink), "
+        "LinkBase.update, ClampBase.__init__ / update_params / get_params, LineClamp's default bounds, CurveClamp and "
+        "ParametricSurfaceClamp remain tied by sampled, kernel-decided numeric agreement only (interval, 80 bits, staged by "
+        "Proofs/C17_Staged.v)",
         "scipy.linalg.expm of the skew matrix is modelled by Rodrigues' formula; numpy float arithmetic read as real "
         "arithmetic within 1e-9*size (1e-6*size where arccos is evaluated within 1e-3 rad of 0 or pi)",
         "scipy.optimize.minimize inside ClampBase.get_params is an argument of the model; theorem C17_initial assumes it "
@@ -942,6 +1031,11 @@ class C17(Prop):
             raise GenError("SymmetryLink alters its leader for some inputs only: %r" % (verdicts,))
         ctx.write_gen("Flags", "(* GENERATED by harness/props/C17.py from the working tree of /repo -- do not edit *)\n"
                                "Definition mirror_inplace : bool := %s.\n" % ("true" if verdicts[0] else "false"))
+        # the source itself: python -> Gallina (fail closed), proved equal to the model by Proofs/C17_SourceEq.v
+        text, tr = translate_source()
+        tr.tie_to_runtime()
+        ctx.write_gen("Source", text)
+        ctx.log("S1: clamp / link code translated: %d definitions (%s)" % (len(tr.summary), ", ".join(d["coq"] for d in tr.summary)))
 
     # -- S3 --------------------------------------------------------------------------------------
     def make_cases(self, ctx):
@@ -956,7 +1050,11 @@ class C17(Prop):
 
     def correspond(self, ctx):
         res = CorrResult()
-        res.rule = ("clamp and link instances in general position (size 10^U(-1,1.5), random non-unit directions, shifted origins): "
+        res.rule = ("[position functions of LineClamp / PlaneClamp / RadialClamp and the three link transforms: the model is proved "
+                    "equal to the translated source for all arguments (Proofs/C17_SourceEq.v), rotate being an input function; "
+                    "these samples validate the translator's reading, tie functions.rotate to Rodrigues' formula and tie the "
+                    "constructors, update protocol and minimiser] "
+                    "clamp and link instances in general position (size 10^U(-1,1.5), random non-unit directions, shifted origins): "
                     "construct, then update_params with several values / the optimizer's `leader = p; update()` protocol with "
                     "1..3 leader moves of any size; compared in Coq: initial parameters and position against the closed-form "
                     "closest point, every updated position, follower and leader after every update; non-trivial = no vanishing "
